@@ -5054,6 +5054,13 @@ class Located(ParseElementEnhance):
 
     """
 
+    def __init__(self, expr: Union[ParserElement, str]) -> None:
+        super().__init__(expr)
+        # locn_start must be the location after any leading whitespace, also
+        # when the contained expression leaves pre-parsing to its alternatives
+        # (callPreparse copied as False from a MatchFirst, Or or Each)
+        self.callPreparse = True
+
     def parseImpl(self, instring, loc, do_actions=True) -> ParseImplReturnType:
         start = loc
         loc, tokens = self.expr._parse(instring, start, do_actions, callPreParse=False)
